@@ -52,7 +52,7 @@ DOCS = {
   # upper-case elements carrying the selector's class; a '>' inside a quoted attribute of a target without a selector hit
   "A13": [st("html", upper=True), st("head", upper=True), st("meta", ' CLASS="x"', True, upper=True), et("head", upper=True), st("body", ' data-if="a > b"', upper=True),
           st("div", " title='1>0'"), tx("hi"), et("div"), st("p", ' class="x"', True, upper=True), tx("t"), et("p", upper=True), et("body", upper=True), et("html", upper=True)],
-  "A14": [st("html"), st("head"), st("title"), tx("T"), et("title"), et("head"), st("body", ' data-if="a > b"'), st("div", " title='1>0'"), tx("hi"), et("div"), et("body"), et("html")],
+  "A14": [st("html"), st("head"), st("title"), tx("T"), et("title"), et("head"), st("body", ' data-if="a > b" data-root="/app/v2"'), st("div", " title='1>0'"), tx("hi"), et("div"), et("body"), et("html")],
   # ~a~ ~y~ ~A~ are characters whose UTF-8 continuation bytes are 0xA0 / 0x85; unquoted values, attribute and tag names
   "A15": [st("html"), st("body"), st("p", " title=voil~a~~A~ data-~y~=1"), tx("t~a~"), et("p"), st("x-~y~n", ' class="x"', True), tx("u"), et("x-~y~n"), et("body"), et("html")],
   # comments inside elements that the filters buffer (selector filters on head / body div, replace)
@@ -118,6 +118,9 @@ FILTERS = {
   "F26": fl(("append", ["html", "head"], "meta")),
   "F27": fl(("replace", ["html", "body", "p"], "p"), ("prepend", ["html", "body"], "p")),
   "F28": fl(("append", ["html"], "x"), ("prepend", ["html"], "none")),
+  # a text prepend as the FIRST stage of the chain (alone, and before an html stage)
+  "F30": fl(("text_prepend", [], "none")),
+  "F31": fl(("text_prepend", [], "none"), ("append", ["html", "body"], "none")),
   # a non-empty list that builds nothing (unknown action): only used by the pipeline cases
   "F29": fl(("unknown", ["html", "body"], "none")),
 }
@@ -137,7 +140,7 @@ def main():
     out.append("DocsWell == {%s}" % ", ".join(n for n in DOCS if n.startswith("A")))
     out.append("DocsMessy == {%s}" % ", ".join(n for n in DOCS if n.startswith("B")))
     out.append("FiltersAll == {%s}" % ", ".join(f for f in FILTERS if f != "F29"))
-    out.append("FiltersQuick == {F1, F2, F3, F4, F5, F6, F7, F8, F10, F11, F12, F16, F21, F23, F24, F25, F26, F27}")
+    out.append("FiltersQuick == {F1, F2, F3, F4, F5, F6, F7, F8, F10, F11, F12, F16, F21, F23, F24, F25, F26, F27, F30, F31}")
     out.append("DocsQuick == {A2, A3, A7, A8, A9, A10, A11, A13, A14, A15, A16, B1, B2, B3, B4, B5, B11, B12, B14, B15}")
     out.append("CasesQuick == Prod(DocsQuick, FiltersQuick)")
     out.append("CasesAll == Prod(DocsWell \\cup DocsMessy, FiltersAll)")
